@@ -5,6 +5,7 @@ import gc
 import os
 import sys
 import traceback
+import time
 import tracemalloc
 import types
 
@@ -253,6 +254,12 @@ class MemoryMonitor:
         tracemalloc.reset_peak()
         self.base = tracemalloc.get_traced_memory()[0]
         self.on = True
+        # CPU time of this thread (not wall clock: independent of machine load); the only clock that sees work done
+        # inside C code (regex engine, zlib, struct), which the line-event step clock cannot
+        self.cpu0 = time.thread_time()
+
+    def cpu(self) -> float:
+        return time.thread_time() - self.cpu0 if self.on else 0.0
 
     def peak(self) -> int:
         if not self.on:
